@@ -71,6 +71,10 @@ func init() {
 				bs = append(bs, core.Batch{Name: fmt.Sprintf("oversubscribed-%d", rep), TimeoutS: 300,
 					Params: core.Params(c03Params{Kind: "oversub", Workers: 4, Cycles: tierPick(tier, 250, 1500)})})
 			}
+			for _, w := range []int{1, 8} {
+				bs = append(bs, core.Batch{Name: fmt.Sprintf("immediate-restart-w%d", w), TimeoutS: 300,
+					Params: core.Params(c03Params{Kind: "immediate-restart", Workers: w, Cycles: tierPick(tier, 40000, 400000)})})
+			}
 			bs = append(bs, core.Batch{Name: "first-start-race", TimeoutS: 600, Race: true,
 				Params: core.Params(c03Params{Kind: "first-start", Workers: 2, Cycles: tierPick(tier, 60, 400)})})
 			bs = append(bs, core.Batch{Name: "listen-and-serve", TimeoutS: 300,
@@ -92,6 +96,10 @@ func c03Run(c *core.Ctx, b core.Batch) {
 	var p c03Params
 	json.Unmarshal(b.Params, &p)
 	rigInstall()
+	if p.Kind == "immediate-restart" {
+		c03ImmediateRestart(c, p)
+		return
+	}
 	if p.Kind == "oversub" {
 		c03Oversubscribed(c, p)
 		return
@@ -618,6 +626,91 @@ func c03MultiShutdown(c *core.Ctx, p c03Params) {
 	c.Sample(map[string]interface{}{"scenario": "concurrent Shutdown calls", "workers": p.Workers, "cycles": p.Cycles})
 }
 
+// c03NullConn is a connection without any locking or bookkeeping (the start/stop
+// cycles below are meant to be as short as the library allows).
+type c03NullConn struct{ closes *int64 }
+
+func (c03NullConn) Publish(string, []byte) error                { return nil }
+func (c03NullConn) PublishRequest(string, string, []byte) error { return nil }
+func (c03NullConn) ChanSubscribe(s string, ch chan *nats.Msg) (*nats.Subscription, error) {
+	return &nats.Subscription{Subject: s}, nil
+}
+func (c03NullConn) ChanQueueSubscribe(s, q string, ch chan *nats.Msg) (*nats.Subscription, error) {
+	return &nats.Subscription{Subject: s}, nil
+}
+func (n c03NullConn) Close() { atomic.AddInt64(n.closes, 1) }
+
+// c03ImmediateRestart: a supervisor goroutine calls Serve in a tight loop (refused while
+// the service is not stopped) and is accepted the instant a Shutdown, called from the
+// main goroutine, has stopped the service - while the Serve call of the previous run
+// may still be returning. Nothing panics, every run starts, every connection is closed once.
+func c03ImmediateRestart(c *core.Ctx, p c03Params) {
+	rigInstall()
+	svc := res.NewService("svc")
+	svc.SetLogger(nil)
+	svc.SetWorkerCount(p.Workers)
+	svc.Handle("m.$id", res.GetModel(func(r res.ModelRequest) { r.Model(nil) }))
+	var served, closes, ran int64
+	svc.SetOnServe(func(*res.Service) { atomic.AddInt64(&served, 1) })
+	var panicked int32
+	serveLoop := func(until int64) {
+		pn, stack := tryStack(func() {
+			for {
+				err := svc.Serve(c03NullConn{&closes})
+				if err == nil || atomic.LoadInt64(&served) > until || atomic.LoadInt32(&panicked) != 0 {
+					return
+				}
+			}
+		})
+		if pn != nil {
+			c.Violation("C03/panic:Serve:"+short(fmt.Sprint(pn), 70), fmt.Sprintf("Serve panicked while the service was being served again by a supervisor loop right after a Shutdown: %v", pn), map[string]interface{}{"stack": short(stack, 2500), "workers": p.Workers, "runs_so_far": atomic.LoadInt64(&served)})
+			atomic.StoreInt32(&panicked, 1) // after the report: the main goroutine ends the batch when it sees this
+		}
+	}
+	go serveLoop(0)
+	waitServed := func(n int64) bool {
+		deadline := time.Now().Add(10 * time.Second)
+		for atomic.LoadInt64(&served) < n {
+			if atomic.LoadInt32(&panicked) != 0 || time.Now().After(deadline) {
+				return false
+			}
+			time.Sleep(20 * time.Microsecond)
+		}
+		return true
+	}
+	if !waitServed(1) {
+		c.Inconclusive("immediate-restart: first start failed")
+		return
+	}
+	for cy := 0; cy < p.Cycles; cy++ {
+		n := atomic.LoadInt64(&served)
+		if cy%4 == 0 {
+			svc.With("svc.m.1", func(res.Resource) { atomic.AddInt64(&ran, 1) })
+		}
+		go serveLoop(n)
+		if pn := try(func() { svc.Shutdown() }); pn != nil {
+			c.Violation("C03/panic:Shutdown:"+short(fmt.Sprint(pn), 70), fmt.Sprintf("Shutdown panicked: %v", pn), nil)
+			return
+		}
+		c.Eval(1)
+		if !waitServed(n + 1) {
+			if atomic.LoadInt32(&panicked) == 0 {
+				c.Violation("C03/restart-failed", "the supervisor loop was not accepted within 10 s after Shutdown returned", map[string]interface{}{"cycle": cy, "workers": p.Workers})
+			}
+			return
+		}
+		c.Distinct(fmt.Sprintf("%s/%d", c.Batch.Name, cy%500))
+	}
+	svc.Shutdown()
+	time.Sleep(5 * time.Millisecond)
+	runs := atomic.LoadInt64(&served)
+	if cl := atomic.LoadInt64(&closes); cl != runs {
+		c.Violation("C03/close-count", fmt.Sprintf("%d runs but %d Close calls on their connections", runs, cl), nil)
+	}
+	c.Obs("immediate_restarts", runs-1)
+	c.Obs("immediate_restart_callbacks", atomic.LoadInt64(&ran))
+}
+
 // c03Oversubscribed: far more caller goroutines than processors (GOMAXPROCS raised
 // to 4 x NumCPU, 128 callers) keep calling the publishing API while the service goes
 // through start/stop cycles and stays stopped for a moment in each: callers are
@@ -865,6 +958,7 @@ func c03Listen(c *core.Ctx, p c03Params) {
 		atomic.AddInt64(&executed, 1)
 		r.Model(map[string]string{"id": r.PathParam("id")})
 	}))
+	var staleGate *sched.Gate // holds a Shutdown call that the previous run's closed-connection handler makes
 	for cy := 0; cy < p.Cycles; cy++ {
 		how := []string{"shutdown", "connection-closed", "shutdown"}[cy%3]
 		what := map[string]interface{}{"scenario": "ListenAndServe cycle", "cycle": cy, "ended_by": how}
@@ -875,7 +969,27 @@ func c03Listen(c *core.Ctx, p c03Params) {
 		go func() { ret <- svc.ListenAndServe(ne.URL, nats.ReconnectWait(20*time.Millisecond)) }()
 		select {
 		case <-served:
+			if staleGate != nil {
+				// NATS runs the closed handler of the previous run's connection on a goroutine of
+				// its own; its Shutdown call (held at its entry) arrives only now. It belongs to
+				// the run that is over and must not stop this one.
+				held := staleGate.WaitArrived(0)
+				staleGate.Release()
+				staleGate = nil
+				if held {
+					c.Obs("stale_closed_handler_calls_held", 1)
+					time.Sleep(5 * time.Millisecond)
+					if st, _, _, _ := svc.VerifState(); st != 2 {
+						c.Violation("C03/stale-closed-handler-stops-next-run", fmt.Sprintf("the closed handler of the previous run's connection ran after the service had been served again and stopped the new run (state=%d)", st), what)
+						return
+					}
+				}
+			}
 		case err := <-ret:
+			if staleGate != nil {
+				staleGate.Release()
+				staleGate = nil
+			}
 			c.Violation("C03/listen-failed", fmt.Sprintf("ListenAndServe returned %v before serving (cycle %d)", err, cy), what)
 			return
 		case <-time.After(20 * time.Second):
@@ -909,6 +1023,14 @@ func c03Listen(c *core.Ctx, p c03Params) {
 			}(g)
 		}
 		time.Sleep(time.Duration(1+cy%4) * time.Millisecond)
+		if how == "shutdown" && cy%2 == 0 {
+			// this cycle is ended by our own Shutdown call; the Shutdown call that the library's
+			// closed-connection handler makes afterwards (on a goroutine NATS starts) is held
+			staleGate = sched.Arm("shutdown.enter", func(interface{}) bool {
+				buf := make([]byte, 4096)
+				return strings.Contains(string(buf[:runtime.Stack(buf, false)]), "handleClosed")
+			})
+		}
 		switch how {
 		case "shutdown":
 			var serr error
@@ -933,6 +1055,7 @@ func c03Listen(c *core.Ctx, p c03Params) {
 		wg.Wait()
 		c.Eval(1)
 		c.Obs("listen_cycles", 1)
+
 		c.Obs("listen_answered_requests", atomic.LoadInt64(&answered))
 		// all workers gone, state stopped (servable again in the next cycle)
 		gone := false
@@ -955,6 +1078,10 @@ func c03Listen(c *core.Ctx, p c03Params) {
 		}
 		if svc.Conn() != nil {
 			c.Violation("C03/conn-not-cleared", "Conn() is not nil after the ListenAndServe cycle ended", what)
+		}
+		if staleGate != nil {
+			// give the closed handler of the connection that was just closed time to arrive
+			staleGate.WaitArrived(50 * time.Millisecond)
 		}
 		c.Distinct(fmt.Sprintf("listen/%s/%d", how, cy))
 	}
